@@ -425,6 +425,11 @@ func runFamily(c runCfg, pkgs []*scratch.Pkg, lines []string, race bool) (*famRe
 				extra = " detail=" + dialect.Hx(p.BuildErr)
 			}
 			impl[i] = "status=" + st + " trace=-" + extra
+			if st == "reject" && strings.Contains(p.GenErr, "is declared twice") {
+				// two elements of the document were given one Go name: the generator may refuse what it cannot translate (C01);
+				// the routing / security model has no naming layer, so the refusal is not compared
+				impl[i] = "SKIP refused-for-a-name-clash"
+			}
 		case "R":
 			if p == nil || !p.OK() {
 				impl[i] = "SKIP pkg-unavailable"
